@@ -138,6 +138,54 @@ def builtin_sets(prog):
     return out
 
 
+def tv_obligations(rec, label, key, d, exp, L, g, prog, bsets, where):
+    """Bisimulation of every rule set and every right context of definition d with the LTS
+    extracted from expansion exp. Records TV / TV-CTX obligations; returns statistics."""
+    stats = {}
+    try:
+        ref = RefDef(d, bsets)
+    except Undefined as e:
+        rec.ob("TV", "%s: reference semantics defined" % label, False,
+               key="TV:%s:undefined" % key, where=where, detail=str(e))
+        return stats
+    sm = dict(getattr(g, "switch_map", {}) or {})
+    for rs_name, aut in ref.rule_sets.items():
+        if d.sets is None or rs_name == "Init":
+            entry = 0
+        else:
+            entry = sm.get(rs_name)
+        desc = "%s: rule set %s of the generated lexer is bisimilar to its reference automaton" % (
+            label, rs_name)
+        if entry is None:
+            rec.ob("TV", desc, False, key="TV:%s:%s:no-entry" % (key, rs_name), where=where,
+                   detail="switch() has no arm for this rule set")
+            continue
+        if d.sets is not None and rs_name == "Init" and sm.get("Init", 0) != 0:
+            rec.ob("TV", "%s: switch(Init) targets state 0" % label, False,
+                   key="TV:%s:init-entry" % key, where=where)
+        try:
+            tv.bisim(L, aut, entry, rs_name == "Init", stats)
+            rec.ob("TV", desc, True)
+        except tv.Mismatch as m:
+            rec.ob("TV", desc, False, key="TV:%s:%s:%s" % (key, rs_name, m.key), where=where,
+                   detail={"mismatch": m.msg, "detail": m.detail, "definition": d.render()[:3000]})
+    for ci, caut in enumerate(ref.ctxs):
+        desc = "%s: right context %d accepts exactly the reference language" % (label, ci)
+        body = exp.ctx_fns().get(ci)
+        if body is None:
+            rec.ob("TV-CTX", desc, False, key="TV-CTX:%s:%d:missing" % (key, ci), where=where)
+            continue
+        try:
+            C = tv.CtxLTS(body, exp, prog)
+            n = tv.bisim_ctx(C, caut)
+            stats["ctx_pairs"] = stats.get("ctx_pairs", 0) + n
+            rec.ob("TV-CTX", desc, True)
+        except tv.Mismatch as m:
+            rec.ob("TV-CTX", desc, False, key="TV-CTX:%s:%d:%s" % (key, ci, m.key), where=where,
+                   detail={"mismatch": m.msg, "detail": m.detail, "definition": d.render()[:3000]})
+    return stats
+
+
 class WitResult(object):
     def __init__(self, w):
         self.name = w.name
@@ -212,53 +260,8 @@ def _analyse(i):
         rec.notes.extend(r.notes)
         res.stats[exp.id] = r.stats
         if w.tv and "lts" in r.extra:
-            L = r.extra["lts"]
-            g = r.extra["gen"]
-            try:
-                ref = RefDef(w.d, _G["bsets"])
-            except Undefined as e:
-                rec.ob("TV", "witness %s: reference semantics defined" % w.name, False,
-                       key="TV:%s:undefined" % w.name, where=where, detail=str(e))
-                continue
-            sm = dict(getattr(g, "switch_map", {}) or {})
-            stats = {}
-            sets = list(ref.rule_sets.items())
-            for si, (rs_name, aut) in enumerate(sets):
-                if w.d.sets is None or rs_name == "Init":
-                    entry = 0
-                else:
-                    entry = sm.get(rs_name)
-                desc = "witness %s: rule set %s of the generated lexer is bisimilar to its " \
-                       "reference automaton" % (w.name, rs_name)
-                if entry is None:
-                    rec.ob("TV", desc, False, key="TV:%s:%s:no-entry" % (w.name, rs_name), where=where,
-                           detail="switch() has no arm for this rule set")
-                    continue
-                if w.d.sets is not None and rs_name == "Init" and sm.get("Init", 0) != 0:
-                    rec.ob("TV", "witness %s: switch(Init) targets state 0" % w.name, False,
-                           key="TV:%s:init-entry" % w.name, where=where)
-                try:
-                    tv.bisim(L, aut, entry, rs_name == "Init", stats)
-                    rec.ob("TV", desc, True)
-                except tv.Mismatch as m:
-                    rec.ob("TV", desc, False, key="TV:%s:%s:%s" % (w.name, rs_name, m.key),
-                           where=where, detail={"mismatch": m.msg, "detail": m.detail,
-                                                "definition": w.d.render()})
-            for ci, caut in enumerate(ref.ctxs):
-                desc = "witness %s: right context %d accepts exactly the reference language" % (w.name, ci)
-                body = exp.ctx_fns().get(ci)
-                if body is None:
-                    rec.ob("TV-CTX", desc, False, key="TV-CTX:%s:%d:missing" % (w.name, ci), where=where)
-                    continue
-                try:
-                    C = tv.CtxLTS(body, exp, prog)
-                    n = tv.bisim_ctx(C, caut)
-                    stats["ctx_pairs"] = stats.get("ctx_pairs", 0) + n
-                    rec.ob("TV-CTX", desc, True)
-                except tv.Mismatch as m:
-                    rec.ob("TV-CTX", desc, False, key="TV-CTX:%s:%d:%s" % (w.name, ci, m.key),
-                           where=where, detail={"mismatch": m.msg, "detail": m.detail,
-                                                "definition": w.d.render()})
+            stats = tv_obligations(rec, "witness %s" % w.name, w.name, w.d, exp, r.extra["lts"],
+                                   r.extra["gen"], prog, _G["bsets"], where)
             res.pairs += stats.get("pairs", 0) + stats.get("ctx_pairs", 0)
             res.comparisons += stats.get("comparisons", 0)
         r.extra = {}
